@@ -182,6 +182,8 @@ struct C06Script {
     /// connection and the per-request histories could not be aligned.
     rst: bool,
     frames: BTreeMap<u64, Vec<FrameSeen>>,
+    /// Speculative runs: answers take 0..120 ms.
+    slow_answers: bool,
 }
 
 impl Script for C06Script {
@@ -222,7 +224,10 @@ impl Script for C06Script {
             consistency: cl,
             outcome: outcome.clone(),
         });
-        let delay = w.think();
+        let mut delay = w.think();
+        if self.slow_answers {
+            delay += tape::range("c06:spec_delay", 0, 120) * MS;
+        }
         match outcome {
             AttemptOutcome::Success => Reply::DefaultAfter(delay),
             AttemptOutcome::RstAfterReceive => Reply::Close { rst: true, delay },
@@ -318,6 +323,11 @@ struct Plan {
     requests: usize,
     concurrent: bool,
     success_weight: u64,
+    /// The execution profile carries a speculative execution policy (and attempts are
+    /// slow enough for it to fire): a statement not marked idempotent must still be sent
+    /// exactly as the retry policy decides. Idempotent requests are not judged in such
+    /// runs (speculative copies are not retry decisions).
+    speculative: bool,
 }
 
 pub fn run(req: &RunRequest) -> Value {
@@ -327,6 +337,7 @@ pub fn run(req: &RunRequest) -> Value {
             requests: tape::range("c06:requests", 1, 12) as usize,
             concurrent: tape::chance("c06:concurrent", 1, 3),
             success_weight: [2, 6, 20][tape::choose("c06:success_weight", 3) as usize],
+            speculative: tape::chance("c06:speculative", 1, 5),
         };
         let mut cluster = Cluster::new("c06");
         for i in 0..plan.nodes {
@@ -368,6 +379,7 @@ async fn main(plan: Plan) -> Outcome {
         w.script = Some(Box::new(C06Script {
             success_weight: plan.success_weight,
             rst: !plan.concurrent,
+            slow_answers: plan.speculative,
             ..Default::default()
         }));
     }
@@ -379,6 +391,22 @@ async fn main(plan: Plan) -> Outcome {
         keepalive_timeout: Some(Duration::from_secs(2)),
         ..SessionCfg::default()
     };
+    let mut cfg = cfg;
+    if plan.speculative {
+        cfg.profile = Some(
+            scylla::client::execution_profile::ExecutionProfile::builder()
+                .request_timeout(None)
+                .retry_policy(Arc::new(FallthroughRetryPolicy))
+                .speculative_execution_policy(Some(Arc::new(
+                    scylla::policies::speculative_execution::SimpleSpeculativeExecutionPolicy {
+                        max_retry_count: 2,
+                        retry_interval: Duration::from_millis(30),
+                    },
+                )))
+                .build(),
+        );
+        out.count("speculative_policy_runs", 1);
+    }
     let session = match client::build_session(&cfg).await {
         Ok(s) => Arc::new(s),
         Err(e) => {
@@ -402,7 +430,7 @@ async fn main(plan: Plan) -> Outcome {
             policy: [Policy::Default, Policy::Downgrading, Policy::Fallthrough]
                 [tape::weighted("c06:policy", &[3, 3, 1])],
             consistency: CONSISTENCIES[tape::weighted("c06:cl", &[3, 2, 1, 1, 1, 1, 1, 1])],
-            kind: tape::choose("c06:kind", 5),
+            kind: tape::choose("c06:kind", 7),
         });
     }
     let mut handles = Vec::new();
@@ -443,6 +471,33 @@ async fn main(plan: Plan) -> Outcome {
                         .await
                         .map(|_| ())
                         .map_err(|e| client::short_err(&e))
+                }
+                5 | 6 => {
+                    // The paging iterator (first page only matters here).
+                    use futures::StreamExt;
+                    let pager = if s.kind == 5 {
+                        let mut st = Statement::new(client::q_marker(m));
+                        st.set_is_idempotent(s.idempotent);
+                        st.set_consistency(s.consistency);
+                        st.set_retry_policy(Some(rec));
+                        session.query_iter(st, ()).await
+                    } else {
+                        let mut p = p_select.clone();
+                        p.set_is_idempotent(s.idempotent);
+                        p.set_consistency(s.consistency);
+                        p.set_retry_policy(Some(rec));
+                        session.execute_iter(p, (m as i64 % 7, m as i64)).await
+                    };
+                    match pager {
+                        Ok(pager) => match pager.rows_stream::<(i64,)>() {
+                            Ok(mut rs) => match rs.next().await {
+                                Some(Err(e)) => Err(format!("{e}").chars().take(120).collect()),
+                                _ => Ok(()),
+                            },
+                            Err(e) => Err(format!("type check: {e}")),
+                        },
+                        Err(e) => Err(format!("{e}").chars().take(120).collect()),
+                    }
                 }
                 _ => {
                     let mut b = Batch::default();
@@ -510,6 +565,10 @@ async fn main(plan: Plan) -> Outcome {
         );
         if sample_hist.len() < 4 {
             sample_hist.push(ctx.clone());
+        }
+        if plan.speculative && s.idempotent {
+            // Speculative copies of an idempotent request are not retry decisions.
+            continue;
         }
         // (a) non-idempotent: re-sent only after an outcome that proves non-application.
         if !s.idempotent {
